@@ -331,6 +331,46 @@ func (c *FnCtx) execCall(x *ssa.Call, common *ssa.CallCommon, st *State, reach *
 			}
 		}
 	}
+	// closures handed to a callee: the ghost-free preconditions of a contracted closure are obligations
+	// here, in the caller's state, where the closure's captured variables are the caller's locals of the
+	// same names (the callee will call the closure later; captured locals change only through closures)
+	for _, a := range common.Args {
+		for {
+			if ct, ok := a.(*ssa.ChangeType); ok {
+				a = ct.X
+				continue
+			}
+			break
+		}
+		mc := closureOfLocal(a)
+		if mc == nil {
+			if m, ok := a.(*ssa.MakeClosure); ok {
+				mc = m
+			}
+		}
+		if mc == nil {
+			continue
+		}
+		cfn := mc.Fn.(*ssa.Function)
+		if cfn.Pkg == nil {
+			continue
+		}
+		cs, ok := c.g.contracts.Funcs[cfn.Pkg.Pkg.Path()+"::"+relFuncName(cfn)]
+		if !ok || cs.Trusted {
+			continue
+		}
+		for i, rq := range cs.Requires {
+			if len(ghostNamesOfExpr(rq.E)) > 0 {
+				continue // ghost protocol state: the callee's param spec speaks about it
+			}
+			tv, err := c.evalSpec(rq.E, c.envFor(st, c.entry))
+			if err != nil {
+				c.abort("precondition %d of closure %s cannot be evaluated where the closure is handed over: %v", i+1, cs.Name, err)
+				return
+			}
+			c.oblige("closurepre", fmt.Sprintf("%s.%d@%s", cs.Name, i+1, c.posString(token.NoPos)), *reach, tv.t, "closure "+cs.Name+" handed over: "+rq.Text)
+		}
+	}
 	// built-in models of well-known library functions
 	if spec == nil && obj != nil {
 		if c.libraryModel(x, obj, common, args, st, reach, setResult) {
@@ -788,6 +828,10 @@ func (c *FnCtx) havocGhosts(st *State, ps *ParamSpec) {
 }
 
 // ghostNamesOf: the ghost variables a parameter spec's postconditions mention (the call may change them).
+func ghostNamesOfExpr(e Expr) []string {
+	return ghostNamesOf(&ParamSpec{Ensures: []Clause{{E: e}}})
+}
+
 func ghostNamesOf(ps *ParamSpec) []string {
 	seen := map[string]bool{}
 	var walk func(e Expr)
